@@ -104,7 +104,7 @@ C08_OffRemoves ==
 \* ---------------------------------------------------------------- behaviours for binding A
 Terminal == AtBoundary /\ Len(rq.ctx) = Base /\ rq.pend = 0 /\ N > Len(Prefix)
 Emit == Terminal => PrintT(<<"BEH", ToJson([prog |-> prog, inc |-> inc, dimpl |-> rq.dimpl,
-                                            ideal |-> Dump(rq.ent, rq.top),
+                                            ideal |-> Dump(rq.ent, rq.top), impl |-> Dump(st.ent, st.top),
                                             idealOn |-> Dump(rqa.ent, rqa.top)])>>)
 View == <<pc, st, rq, rqa, inc, N, IF pc = "inv" THEN prog[N] ELSE [ci |-> 0, d |-> FALSE]>>
 =============================================================================
